@@ -45,69 +45,130 @@ fn any_scalar_value() -> Value {
     Value::from(r)
 }
 
-//@ tier=quick cap=900 funcs=RootedValue::new,RootedValue::drop,RootedValue::unroot_,Value::obj_eq bound=any_scalar_value_incl_NaN;one_other_handle_alive
+fn unroot_one(v: Value, canary: bool) {
+    let t = mk_thread();
+    unsafe {
+        let h = RootedValue::<&Thread>::new(t, &v);
+        assert!(t.rooted_values.read().unwrap().len() == 1);
+        drop(h);
+        assert!(t.rooted_values.read().unwrap().len() == 0, "the handle's root is gone");
+    }
+    kani::cover!(true, "handle dropped");
+    if canary {
+        assert!(false, "canary");
+    }
+}
+
+//@ tier=quick cap=900 funcs=RootedValue::new,RootedValue::drop,RootedValue::unroot_,Value::obj_eq bound=any_f64_bit_pattern_incl_NaN;single_handle
 #[kani::proof]
 #[kani::unwind(5)]
 #[kani::stub(rstd::fmt::format, fmt_stub)]
-fn c06_unroot_scalar() {
-    let t = mk_thread();
-    let other = any_scalar_value();
-    let v = any_scalar_value();
-    unsafe {
-        // another handle stays alive (so the search in unroot_ has something to skip)
-        let keep = ManuallyDrop::new(RootedValue::<&Thread>::new(t, &other));
-        let h = RootedValue::<&Thread>::new(t, &v);
-        assert!(t.rooted_values.read().unwrap().len() == 2);
-        drop(h);
-        // exactly the dropped handle's root is gone
-        let rv = t.rooted_values.read().unwrap();
-        assert!(rv.len() == 1, "one root left");
-        assert!(rv[0].obj_eq(&other), "the other handle's root survives");
-    }
-    kani::cover!(matches!(v.get_repr(), Float(f) if f.is_nan()), "NaN handle dropped");
-    kani::cover!(true, "handle dropped");
+fn c06_unroot_float() {
+    let x: u64 = kani::any();
+    kani::cover!(f64::from_bits(x).is_nan(), "NaN handle");
+    unroot_one(Value::from(Float(f64::from_bits(x))), false);
 }
 
-/// Frames as a failed run leaves them: bottom `Unknown` frame plus up to three frames on top.
-//@ tier=quick cap=900 funcs=reset_stack,StackFrame::exit_scope bound=up_to_3_frames_above_level;level_le_depth;no_locked_extern_frame
-#[kani::proof]
-#[kani::unwind(6)]
-#[kani::stub(rstd::fmt::format, fmt_stub)]
-fn c06_reset_stack() {
-    let mut stack = ManuallyDrop::new(Stack::new());
-    rstd::mem::forget(StackFrame::<State>::new_frame(&mut stack, 0, State::Unknown));
-    let extra: usize = kani::any();
-    kani::assume(extra <= 3);
-    let mut n = 0;
-    while n < 3 {
-        if n < extra {
-            stack.push(Int(kani::any()));
-            let args: VmIndex = if kani::any() { 0 } else { 1 };
-            rstd::mem::forget(StackFrame::<State>::new_frame(&mut stack, args, State::Unknown));
+macro_rules! unroot_variant {
+    ($name: ident, $mk: expr) => {
+        #[kani::proof]
+        #[kani::unwind(5)]
+        #[kani::stub(rstd::fmt::format, fmt_stub)]
+        fn $name() {
+            unroot_one(Value::from($mk), false);
         }
-        n += 1;
-    }
-    let depth = 1 + extra;
-    let level: usize = kani::any();
-    kani::assume(level >= 1 && level <= depth);
-    let frame = StackFrame::<State>::current(&mut stack);
-    let r = ManuallyDrop::new(reset_stack(frame, level));
-    assert!(r.is_ok(), "no locked frame: unwinding succeeds");
-    assert!(stack.get_frames().len() == level, "exactly `level` frames left");
-    kani::cover!(extra == 3 && level == 1, "three frames unwound");
-    kani::cover!(level == depth, "nothing to unwind");
+    };
 }
+//@ tier=quick cap=900 funcs=RootedValue::new,RootedValue::drop,RootedValue::unroot_,Value::obj_eq bound=any_i64;single_handle
+unroot_variant!(c06_unroot_int, Int(kani::any()));
+//@ tier=quick cap=900 funcs=RootedValue::new,RootedValue::drop,RootedValue::unroot_,Value::obj_eq bound=any_u8;single_handle
+unroot_variant!(c06_unroot_byte, Byte(kani::any()));
+//@ tier=quick cap=900 funcs=RootedValue::new,RootedValue::drop,RootedValue::unroot_,Value::obj_eq bound=any_u32_tag;single_handle
+unroot_variant!(c06_unroot_tag, Tag(kani::any()));
+
+/// `unroot_` finds the slot to release with `Value::obj_eq`: on scalars it must be the identity
+/// relation (same variant, same bits), or a handle releases another handle's root / none at all.
+//@ tier=quick cap=900 funcs=Value::obj_eq bound=all_pairs_of_scalar_values
+#[kani::proof]
+#[kani::unwind(3)]
+fn c06_obj_eq_scalar() {
+    let (ka, kb): (u8, u8) = (kani::any(), kani::any());
+    kani::assume(ka < 4 && kb < 4);
+    let (xa, xb): (u64, u64) = (kani::any(), kani::any());
+    let mk = |k: u8, x: u64| match k {
+        0 => Int(x as VmInt),
+        1 => Float(f64::from_bits(x)),
+        2 => Byte(x as u8),
+        _ => Tag(x as VmTag),
+    };
+    let same = ka == kb
+        && match ka {
+            0 | 1 => xa == xb,
+            2 => xa as u8 == xb as u8,
+            _ => xa as VmTag == xb as VmTag,
+        };
+    let (a, b) = (Value::from(mk(ka, xa)), Value::from(mk(kb, xb)));
+    assert!(a.obj_eq(&b) == same, "obj_eq is identity on scalars");
+    kani::cover!(same && ka == 1 && f64::from_bits(xa).is_nan(), "a NaN equals itself");
+    kani::cover!(!same && ka == kb, "same variant, different payload");
+}
+
+/// Frames as a failed run leaves them: bottom `Unknown` frame plus `$extra` frames on top (one
+/// harness per depth so that the frame stack has a concrete shape), each entered with 0 or 1
+/// arguments; `level` (the depth to unwind to) is symbolic.
+/// The stack trace text is diagnostics, not the subject: `Stack::stacktrace` (an iterator
+/// `collect` over a slice with a symbolic start) is replaced by an empty trace.
+fn stub_stacktrace(_: &Stack, _: usize) -> crate::stack::Stacktrace {
+    crate::stack::Stacktrace { frames: Vec::new() }
+}
+
+macro_rules! reset_stack_depth {
+    ($name: ident, $extra: literal) => {
+        #[kani::proof]
+        #[kani::unwind(6)]
+        #[kani::stub(rstd::fmt::format, fmt_stub)]
+        #[kani::stub(crate::stack::Stack::stacktrace, stub_stacktrace)]
+        fn $name() {
+            let mut stack = ManuallyDrop::new(Stack::new());
+            rstd::mem::forget(StackFrame::<State>::new_frame(&mut stack, 0, State::Unknown));
+            if $extra >= 1 {
+                stack.push(Int(kani::any()));
+                let args: VmIndex = if kani::any() { 0 } else { 1 };
+                rstd::mem::forget(StackFrame::<State>::new_frame(&mut stack, args, State::Unknown));
+            }
+            if $extra >= 2 {
+                stack.push(Int(kani::any()));
+                let args: VmIndex = if kani::any() { 0 } else { 1 };
+                rstd::mem::forget(StackFrame::<State>::new_frame(&mut stack, args, State::Unknown));
+            }
+            if $extra >= 3 {
+                stack.push(Int(kani::any()));
+                let args: VmIndex = if kani::any() { 0 } else { 1 };
+                rstd::mem::forget(StackFrame::<State>::new_frame(&mut stack, args, State::Unknown));
+            }
+            let depth: usize = 1 + $extra;
+            let level: usize = kani::any();
+            kani::assume(level >= 1 && level <= depth);
+            let frame = StackFrame::<State>::current(&mut stack);
+            let r = ManuallyDrop::new(reset_stack(frame, level));
+            assert!(r.is_ok(), "no locked frame: unwinding succeeds");
+            assert!(stack.get_frames().len() == level, "exactly `level` frames left");
+            kani::cover!(level == 1, "unwound to the bottom frame");
+            kani::cover!(level == depth, "nothing to unwind");
+        }
+    };
+}
+//@ tier=quick cap=900 funcs=reset_stack,StackFrame::exit_scope bound=stacktrace_stubbed;1_frame_above_the_bottom;any_level_le_depth;no_locked_extern_frame
+reset_stack_depth!(c06_reset_stack_1, 1);
+//@ tier=quick cap=900 funcs=reset_stack,StackFrame::exit_scope bound=stacktrace_stubbed;2_frames_above_the_bottom;any_level_le_depth;no_locked_extern_frame
+reset_stack_depth!(c06_reset_stack_2, 2);
+//@ tier=thorough cap=1800 mem=20 funcs=reset_stack,StackFrame::exit_scope bound=stacktrace_stubbed;3_frames_above_the_bottom;any_level_le_depth;no_locked_extern_frame
+reset_stack_depth!(c06_reset_stack_3, 3);
 
 //@ tier=quick cap=900
 #[kani::proof]
 #[kani::unwind(5)]
 #[kani::stub(rstd::fmt::format, fmt_stub)]
 fn c06_unroot_canary() {
-    let t = mk_thread();
-    let v = any_scalar_value();
-    unsafe {
-        let h = RootedValue::<&Thread>::new(t, &v);
-        drop(h);
-    }
-    assert!(false, "canary");
+    unroot_one(Value::from(Float(f64::from_bits(kani::any()))), true);
 }
